@@ -630,6 +630,7 @@ func (r *RootAssertionNode) AddComputation(expr ast.Expr) {
 		r.AddComputation(expr.X)
 	case *ast.CallExpr:
 		r.AddComputation(expr.Fun)
+		r.consumeMethodExprRecv(expr)
 		exprArgs := r.funcArgsFromCallExpr(expr)
 		var consumeArg func(int, ast.Expr)
 		consumeArgNoop := func(int, ast.Expr) {}
@@ -946,6 +947,40 @@ func (r *RootAssertionNode) AddComputation(expr ast.Expr) {
 		// TODO - once debugger is working - fill in cases here
 		// if we don't recognize the node - do nothing
 	}
+}
+
+// consumeMethodExprRecv handles a call through a method expression, e.g., `(*T).m(recv, args...)`,
+// which passes the receiver as the first argument (see funcArgsFromCallExpr). The receiver value
+// flows into the receiver site of the method exactly as in `recv.m(args...)`, so under the same
+// conditions as for a selector call (see the *ast.SelectorExpr case of AddComputation) we create
+// a RecvPass consumer for it.
+func (r *RootAssertionNode) consumeMethodExprRecv(call *ast.CallExpr) {
+	sel, ok := call.Fun.(*ast.SelectorExpr)
+	if !ok || !r.isType(sel.X) || len(call.Args) == 0 {
+		return
+	}
+	funcObj, ok := r.ObjectOf(sel.Sel).(*types.Func)
+	if !ok {
+		return
+	}
+	recv := funcObj.Type().(*types.Signature).Recv()
+	if recv == nil || !typeshelper.IsPointer(recv.Type()) {
+		return
+	}
+	conf := r.Pass().ResultOf[config.Analyzer].(*config.Config)
+	if !conf.IsPkgInScope(funcObj.Pkg()) || typeshelper.IsDeeplyType[*types.Interface](r.Pass().TypesInfo.TypeOf(sel.X)) {
+		return
+	}
+	r.AddConsumption(&annotation.ConsumeTrigger{
+		Annotation: &annotation.RecvPass{
+			TriggerIfNonNil: &annotation.TriggerIfNonNil{
+				Ann: &annotation.RecvAnnotationKey{
+					FuncDecl: funcObj,
+				},
+			}},
+		Expr:   call.Args[0],
+		Guards: guard.NoGuards(),
+	})
 }
 
 // getFuncIdent returns the function identified from a call expression. If the function
